@@ -149,12 +149,19 @@ struct Exec {
   std::string extra_json;                 // extra fields of the next Call event
   bool will_skip() const { return ref_pass && skip && call_idx < skip->size() && (*skip)[call_idx]; }
 
-  Exec(uint64_t seed, Arch a, int emkind, const std::string& md) : r(seed), arch(a), emk(emkind), mode(md) {
+  // Fast-path configuration (Assembler, general mode): no logger, no diagnostic option - the emitter's inlined fast path.
+  // Its twin pass is the SAME execution (same seed, same calls) with a logger attached (slow path, still no validation):
+  // loggers are documented not to change what is valid, so every request must be accepted / refused alike.
+  bool fast = false, twin_pass = false;
+  std::vector<uint32_t> rcs;              // twin pass: result of every call, by call index
+  const std::vector<uint32_t>* twin_rcs = nullptr;
+  Exec(uint64_t seed, Arch a, int emkind, const std::string& md, bool twin = false) : r(seed), arch(a), emk(emkind), mode(md), twin_pass(twin) {
     is_x86 = a != Arch::kAArch64;
     for (size_t i = 0; i < sizeof databuf; i++) databuf[i] = uint8_t(r.next());
     hk = int(r.below(3));
     logger_on = r.chance(1, 4);
     own_handler = r.chance(1, 5);
+    { bool fd = r.chance(3, 10); fast = fd && emkind == 0 && md == "general"; if (fast) logger_on = twin_pass; }
     if (mode == "detinst" || mode == "detother") { attached = false; own_handler = true; }
     code.init(Environment(a));
     other.init(Environment(a));
@@ -182,10 +189,11 @@ struct Exec {
       if (emk == 1) { vi_on = c < 65; va_on = c < 40 || (c >= 65 && c < 85); }
       else if (emk == 2) { vi_on = true; va_on = c < 50; }
       if (mode != "general" && mode != "failonly") { vi_on = va_on = true; }
+      if (fast) { vi_on = va_on = false; }
       diag = (va_on ? DiagnosticOptions::kValidateAssembler : DiagnosticOptions::kNone) | (vi_on ? DiagnosticOptions::kValidateIntermediate : DiagnosticOptions::kNone);
       // x86 without any validation: the property only quantifies over arbitrary ids / memory forms / immediates / modifiers
       // with the operand KINDS of a real form (arbitrary kinds need strict validation)
-      kinds_only = is_x86 && emk == 1 && !vi_on && !va_on; }
+      kinds_only = is_x86 && emk != 2 && !vi_on && !va_on; }
     fin_style = int(r.below(3));
     em->add_diagnostic_options(diag);
     if (emk == 1 && attached && vi_on) {
@@ -244,12 +252,12 @@ struct Exec {
 
   void reset_event(uint32_t xs, size_t calls) {
     { std::string t; put_proj(t, proj()); last_p = t; }
-    if (ref_pass) return;
+    if (ref_pass || twin_pass) return;
     std::string s = "{\"e\":\"Reset\",\"arch\":\""; s += arch_name(arch);
     s += "\",\"em\":\""; s += emk == 0 ? "asm" : emk == 1 ? "builder" : "compiler";
     s += "\",\"hk\":\""; s += hk == 0 ? "none" : hk == 1 ? "rec" : "throw";
     s += "\",\"att\":"; s += attached ? "true" : "false";
-    char c[128]; snprintf(c, sizeof c, ",\"xs\":%u,\"xi\":%zu,\"n\":%zu,\"mode\":\"%s\",\"lg\":%d,\"own\":%d,\"vi\":%s,\"va\":%s,", xs, xi, calls, mode.c_str(), logger_on, own_handler, vi_on ? "true" : "false", va_on ? "true" : "false");
+    char c[128]; snprintf(c, sizeof c, ",\"xs\":%u,\"xi\":%zu,\"n\":%zu,\"mode\":\"%s\",\"lg\":%d,\"own\":%d,\"vi\":%s,\"va\":%s,\"fast\":%s,", xs, xi, calls, mode.c_str(), logger_on, own_handler, vi_on ? "true" : "false", va_on ? "true" : "false", fast ? "true" : "false");
     s += c;
     put_proj(s, proj()); s += ","; put_os(s, "os"); s += "}\n";
     fputs(s.c_str(), g_out);
@@ -259,14 +267,16 @@ struct Exec {
   // f() performs the call and returns the numeric error code (0 = Ok).  For calls that return a Label the wrapper
   // lambda maps "invalid label returned" to a non-zero code.
   template<typename F> uint32_t call(const char* kind, const std::string& in, F&& f) {
-    if (ref_pass) {                       // reference pass: refused calls are omitted, nothing is logged
+    if (ref_pass || twin_pass) {          // reference pass: refused calls are omitted; twin pass: all calls; nothing is logged
       bool sk = will_skip(); call_idx++;
       extra_json.clear();
       if (sk) return 1;
+      g_pending = std::string(arch_name(arch)) + (twin_pass ? " (twin pass, logger attached) " : " (reference pass) ") + kind + " " + in;
       h.codes.clear();
       uint32_t rc = 0;
       try { rc = f(); } catch (const EmitError& e) { rc = uint32_t(e.code); }
       if (logger_on && lg.data_size() > 4096) lg.clear();
+      if (twin_pass) { while (rcs.size() + 1 < call_idx) rcs.push_back(0xFFFFFFFFu); rcs.push_back(rc); }
       return rc;
     }
     g_pending = std::string(arch_name(arch)) + "/" + (emk == 0 ? "asm" : emk == 1 ? "builder" : "compiler") + " " + kind + " " + in;
@@ -357,6 +367,7 @@ struct Exec {
     RegType t = r.chance(1, 12) ? RegType(r.below(32)) : types[r.below(sizeof types / sizeof types[0])];
     Reg reg = Reg::from_type_and_id(t, weird_reg_id());
     if (r.chance(1, 25)) { Operand o(reg); o._signature.set_size(uint32_t(r.below(256))); return o; }
+    if (r.chance(1, 40)) { Operand o(reg); o._signature.set_reg_group(RegGroup(r.below(16))); return o; }   // group field over its full 4 bits
     return reg;
   }
   Operand x86_rand_mem() {
@@ -383,8 +394,9 @@ struct Exec {
     }
     static const uint32_t sizes[] = {0, 0, 0, 1, 2, 4, 4, 8, 8, 16, 32, 64, 6, 10, 3, 5, 128, 255};
     m.set_size(sizes[r.below(sizeof sizes / sizeof sizes[0])]);
-    if (r.chance(1, 6)) m.set_segment(uint32_t(r.below(8)));
-    if (r.chance(1, 12)) m.set_broadcast(x86::Mem::Broadcast(r.below(8)));
+    if (r.chance(1, 6)) m.set_segment(uint32_t(r.below(8)));                 // full 3-bit range (7 is no segment register)
+    if (r.chance(1, 12)) m.set_broadcast(x86::Mem::Broadcast(r.below(8)));   // full 3-bit range (7 is no broadcast)
+    if (r.chance(1, 12)) m.set_addr_type(x86::Mem::AddrType(r.below(4)));    // full 2-bit range (3 is no address type)
     return m;
   }
   Operand rand_label_op() { bool v; return Label(pick_label_id(v)); }
@@ -458,7 +470,7 @@ struct Exec {
           case 1: if (m.has_index()) m.set_index_id(weird_reg_id()); else m.set_offset_lo32(int32_t(weird_off())); break;
           case 2: m.set_shift(uint32_t(r.below(4))); break;
           case 3: if (m.has_base()) m.set_offset_lo32(int32_t(weird_off())); else m.set_offset(weird_off()); break;
-          default: m.set_segment(uint32_t(r.below(7))); break;
+          default: m.set_segment(uint32_t(r.below(8))); break;
         }
       }
       else if (o.is_imm()) o.as<Imm>().set_value(weird_imm());
@@ -477,7 +489,11 @@ struct Exec {
         case 2: m.set_shift(uint32_t(r.below(4))); break;
         case 3: if (m.has_base()) m.set_offset_lo32(int32_t(weird_off())); else m.set_offset(weird_off()); break;
         case 4: m.set_size(uint32_t(r.below(2) ? r.below(256) : (1u << r.below(7)))); break;
-        case 5: m.set_segment(uint32_t(r.below(8))); break;
+        case 5: switch (r.below(4)) {
+                  case 0: m.set_broadcast(x86::Mem::Broadcast(r.below(8))); break;
+                  case 1: m.set_addr_type(x86::Mem::AddrType(r.below(4))); break;
+                  default: m.set_segment(uint32_t(r.below(8))); break;
+                } break;
         case 6: m = x86::ptr(Label(mem_label_id()), int32_t(weird_off())); break;
         default: m.set_base_type(any_base_type()); break;
       }
@@ -550,6 +566,14 @@ struct Exec {
     size_t n_eff = 0;
     if (n > 3 && !ops[3].is_none()) n_eff = (n > 4 && !ops[4].is_none()) ? ((n > 5 && !ops[5].is_none()) ? 6 : 5) : 4;
     else { for (size_t i = 0; i < n && i < 3; i++) if (!ops[i].is_none()) n_eff = i + 1; }
+    // fr: a small operand field holds a value outside its documented range (x86 memory operand: segment id 7 - SReg ids are
+    // 0..6; broadcast 7 - Broadcast is kNone..k1To64 = 0..6)
+    int fr = 0;
+    if (is_x86) for (size_t i = 0; i < n_eff; i++) {
+      if (!ops[i].is_mem()) continue;
+      const x86::Mem& m = ops[i].as<x86::Mem>();
+      if (m.segment_id() > 6 || uint32_t(m.get_broadcast()) > 6) fr = 1;
+    }
     int vr = 0;
     for (size_t i = 0; i < n_eff; i++) {
       const Operand_& o = ops[i];
@@ -564,7 +588,8 @@ struct Exec {
     em->set_inst_options(InstOptions(opts));
     em->set_extra_reg(x);
     em->set_inline_comment(cmt);
-    char xj[48]; snprintf(xj, sizeof xj, ",\"vr\":%d", vr); extra_json = xj;
+    char xj[96]; snprintf(xj, sizeof xj, ",\"vr\":%d,\"fr\":%d", vr, fr); extra_json = xj;
+    if (twin_rcs && call_idx < twin_rcs->size() && (*twin_rcs)[call_idx] != 0xFFFFFFFFu) { snprintf(xj, sizeof xj, ",\"tw\":%u", (*twin_rcs)[call_idx]); extra_json += xj; }
     // the shadow result is needed inside the event: run the call through a small wrapper that fills it in afterwards
     uint32_t rc_main = 0;
     auto shadow = [&]() {
@@ -613,6 +638,9 @@ struct Exec {
           id = is_x86 ? bad_x86[r.below(6)] : bad_a64[r.below(6)];
         }
         else if (c < 88 && is_x86) opts = rand_options();
+        else if (c < 90 && !is_x86) {                                   // a64: every condition code on any instruction (valid only on b)
+          id = BaseInst::compose_arm_inst_id(id & uint32_t(InstIdParts::kRealId), arm::CondCode(r.below(16)));
+        }
         else if (kinds_only) { if (n > 0) perturb_x86(ops[r.below(n)]); }
         else if (c < 94 && is_x86) x = rand_extra();
         else if (is_x86 && n < 6) { Operand o = x86_rand_operand(); ops[n++] = o; }  // one operand too many
@@ -899,7 +927,7 @@ struct Exec {
   }
   void probe() {
     if (!attached) return;
-    if (ref_pass) { h.codes.clear(); observe_probe(em, code, is_x86, emk); return; }
+    if (ref_pass || twin_pass) { h.codes.clear(); observe_probe(em, code, is_x86, emk); return; }
     g_pending = "probe";
     h.codes.clear();
     ProbeObs u = observe_probe(em, code, is_x86, emk);
@@ -934,7 +962,7 @@ struct Exec {
       return o;
     };
     ProbeObs u = run(em, code, true);
-    if (ref_pass) return;
+    if (ref_pass || twin_pass) return;
     CodeHolder fc; fc.init(Environment(arch));
     Section* s2 = nullptr; fc.new_section(Out(s2), ".data2", SIZE_MAX, SectionFlags::kNone, 8);
     StringLogger flg; if (logger_on) fc.set_logger(&flg);
@@ -977,8 +1005,8 @@ struct Exec {
   RegType any_base_type() { RegType t = RegType(r.below(32)); if (t == RegType::kLabelTag && !bad_mem_label_ok()) t = RegType::kGp32; return t; }
 
   // ---- one execution ---------------------------------------------------------------------------------------------
-  void run_calls(uint32_t xs, size_t calls) {
-    reset_event(xs, calls);
+  void run_calls(uint32_t xs, size_t calls, bool with_reset = true) {
+    if (with_reset) reset_event(xs, calls);
     if (mode == "failonly") {
       base_labels = code.label_count();
       size_t n = 1 + r.below(calls);
@@ -1085,7 +1113,17 @@ struct Exec {
 // call left the whole projection unchanged) and the finishing phase on both.
 static void run_execution(uint32_t xs, size_t xi, Arch arch, int emk, const std::string& mode, size_t calls) {
   Exec ex(xs, arch, emk, mode); ex.xi = xi;
-  ex.run_calls(xs, calls);
+  ex.reset_event(xs, calls);           // first: a crash in the twin pass must be attributable to this execution
+  fflush(g_out);
+  std::vector<uint32_t> twin_results;
+  if (ex.fast) {
+    g_pending = "twin pass";
+    Exec tw(xs, arch, emk, mode, true);
+    tw.run_calls(xs, calls);
+    twin_results.swap(tw.rcs);
+    ex.twin_rcs = &twin_results;
+  }
+  ex.run_calls(xs, calls, false);
   Exec::FinObs f; bool cmp = false;
   if (ex.pure) {
     g_pending = "reference pass";
